@@ -8,8 +8,9 @@ import Haiway.Props.C01
     whatever is cached –, else the explicit default, else the cached / a newly constructed default instance, else
     `MissingState`; the supplied instances are never written.
 
-    Not regenerated: the constructor itself (`{type(e): e for e in state}`, a dict comprehension – outside the translated
-    subset); its effect is `ScopeState.mk` by assumption, which is what `chain` says in its type. -/
+    The constructor itself (`{type(e): e for e in state}`) is regenerated separately (`Bridge/ScopeStateInit.lean`: the dict
+    comprehension rewritten by its definition; `InitBuilds` / `ClosesChain` – its effect is `ScopeState.mk`), which is what
+    `chain` says in its type. -/
 namespace Haiway.Bridge.ScopeState
 open Haiway.MiniPy
 open Haiway.ScopeState (Inst find mk stateOf lastOf)
